@@ -2,11 +2,12 @@ package checks
 
 import (
 	"fmt"
+	"math"
 
 	clipper "github.com/bolom009/go-clipper2"
 )
 
-// The C18 harness bodies: an 18-call alphabet over shared, read-only inputs and
+// The C18 harness bodies: a 20-call alphabet over shared, read-only inputs and
 // distinct engine objects. The same bodies run (a) under the cooperative
 // scheduler of the schedule explorer and (b) free-running under the race detector.
 
@@ -75,6 +76,14 @@ var c18Calls = []struct {
 		out := clipper.Path2ContainsPath1(Path{{X: 20, Y: 0}, {X: 40, Y: 0}, {X: 30, Y: -20}}, Path{{X: 0, Y: 0}, {X: 60, Y: 0}, {X: 0, Y: 60}})
 		return fmt.Sprint(canonTree(t.PolyPathBase), in, out)
 	}},
+	// long paths (300 vertices): per-call scratch memory of a size that tempts pooling
+	{"SimplifyPath64(300-vertex star, nothing removable)", func() string {
+		return fmt.Sprint(len(clipper.SimplifyPath64(c18Star, 1, true)), clipper.SimplifyPath64(c18Star, 1, true)[:6])
+	}},
+	{"SimplifyPath64(300-vertex noisy circle, most removable)", func() string {
+		r := clipper.SimplifyPath64(c18Noisy, 40, true)
+		return fmt.Sprint(len(r), r)
+	}},
 	{"ClipperOffset(delta callback 3, Round, arc .25)", func() string { return c18Callback(3, 0.25) }},
 	{"ClipperOffset(delta callback 7, Round, arc .5)", func() string { return c18Callback(7, 0.5) }},
 }
@@ -90,4 +99,23 @@ func c18Callback(d, arc float64) string {
 	return fmt.Sprint(s)
 }
 
-func c18Snapshot() string { return fmt.Sprint(c18S, c18C, c18L) }
+// c18Star: 300 vertices alternating between radius 1000 and 1400 (every vertex far from its neighbours' chord);
+// c18Noisy: 300 vertices within a few units of a circle of radius 1000
+var c18Star, c18Noisy = func() (Path, Path) {
+	var a, b Path
+	for i := 0; i < 300; i++ {
+		t := 2 * 3.141592653589793 * float64(i) / 300
+		r := 1000.0
+		if i%2 == 1 {
+			r = 1400
+		}
+		a = append(a, Pt{X: int64(r * cosf(t)), Y: int64(r * sinf(t))})
+		b = append(b, Pt{X: int64(1000*cosf(t)) + int64(i*7%5), Y: int64(1000*sinf(t)) - int64(i*3%4)})
+	}
+	return a, b
+}()
+
+func c18Snapshot() string { return fmt.Sprint(c18S, c18C, c18L, c18Star, c18Noisy) }
+
+func cosf(t float64) float64 { return math.Cos(t) }
+func sinf(t float64) float64 { return math.Sin(t) }
